@@ -314,6 +314,33 @@ def shard(ctx):
                     ctx.violation("inline:call-volume", "%d elements: with calls %s, inlined %s" % (nel, sa, sb), {"kind": "pair", "a": call, "b": inline, "data": bigs})
                 else:
                     ctx.res.distinct.add(("call-volume", nel, json.dumps(sa, sort_keys=True)[:60]))
+    # ---- `let` inside a type block / query block is evaluated afresh for every resource / element (several resources of one type whose
+    #      values differ, in both document orders)
+    if ctx.mine(6):
+        base_res = [("b1", "good-one", 1, ["a"]), ("b2", "bad-two", 2, []), ("b3", "good-three", 3, ["x", "y"])]
+        forms = [("Properties.Name == /^good/", "let n = Properties.Name\n        %n == /^good/"),
+                 ("Properties.Size <= 1", "let z = Properties.Size\n        %z <= 1"),
+                 ("Properties.Tags !empty", "let tg = Properties.Tags[*]\n        %tg !empty"),
+                 ("Properties.Name == /one$/ or Properties.Size >= 3", "let u = to_upper(Properties.Name)\n        %u == /ONE$/ or Properties.Size >= 3"),
+                 ("Properties.Name == /two$/", "let s = some Properties.Name\n        %s == /two$/"),
+                 ("Properties {\n            Size in [1, 3]\n        }", "Properties {\n            let q = Size\n            %q in [1, 3]\n        }")]
+        for order in (base_res, base_res[::-1], base_res[1:] + base_res[:1]):
+            ddoc = {"Resources": {nm: {"Type": "AWS::S3::Bucket", "Properties": {"Name": name, "Size": size, "Tags": tags}} for nm, name, size, tags in order}}
+            ddocs = json.dumps(ddoc)
+            for wrapper, wname in (("AWS::S3::Bucket {\n        %s\n    }", "typeblock"), ("Resources.*[ Type == 'AWS::S3::Bucket' ] {\n        %s\n    }", "filterblock"), ("Resources.* {\n        %s\n    }", "queryblock")):
+                A = "".join("rule f%d {\n    %s\n}\n" % (i, wrapper % a_) for i, (a_, b_) in enumerate(forms))
+                B = "".join("rule f%d {\n    %s\n}\n" % (i, wrapper % b_) for i, (a_, b_) in enumerate(forms))
+                sa, _ = status_map(ctx.w, A, ddocs)
+                sb, _ = status_map(ctx.w, B, ddocs)
+                ctx.res.cases += 1
+                ctx.res.counts["block_let_matrix"] += len(forms)
+                if not isinstance(sa, dict) and not isinstance(sb, dict):
+                    ctx.inconclusive("block-let-matrix-does-not-evaluate")
+                elif sa != sb:
+                    ctx.violation("block-let:%s" % wname, "a `let` inside a %s changes verdicts: in place %s, through the variable %s (resources in order %s)" % (wname, sa, sb, [x[0] for x in order]),
+                                  {"kind": "pair", "a": A, "b": B, "data": ddocs})
+                else:
+                    ctx.res.distinct.add(("block-let", wname, json.dumps(sa, sort_keys=True)[:80]))
     # ---- key interpolation matrix: `x.%k OP` == `x.<key> OP` for every unary operator / comparison x value class x scope of the let
     if ctx.mine(2):
         kdoc = {"x": {"el": [], "em": {}, "es": "", "l": [1, 2], "m": {"a": 1}, "s": "ab", "n": 5, "nul": None, "b": True,
